@@ -101,7 +101,10 @@ func Decode(data []byte) (*Table, error) {
 		return nil, err
 	}
 
-	t := New(p.Allocated)
+	// The table built from a pack is only read (KVStore.Import ranges over it and drops it): it gets the
+	// memory that was transferred, never the size the header claims. A few bytes from the network must not
+	// be able to make the receiver allocate maxAllocated bytes.
+	t := New(p.Offset)
 	t.offset = p.Offset
 	t.inuse = p.Inuse
 	t.garbage = p.Garbage
